@@ -1367,6 +1367,11 @@ pub fn find_close(words: &[u64], len: usize, p: usize) -> Option<usize> {
     // Scan subsequent words
     for (i, &word) in words[word_idx + 1..].iter().enumerate() {
         let actual_word_idx = word_idx + 1 + i;
+        // Words lying wholly at or beyond `len` (surplus storage) hold no valid
+        // bits: stop before `len - actual_word_idx * 64` can underflow.
+        if actual_word_idx * 64 >= len {
+            break;
+        }
         let word_bits = if actual_word_idx * 64 + 64 <= len {
             64
         } else {
